@@ -1,7 +1,7 @@
 (* C01 - each cycle's wire values are a consistent, order-independent settlement.
    Property theorems only; proofs live in SchedProofs.v (and BuildProofs.v for the scheduler). *)
 From Coq Require Import Permutation.
-From HclV Require Import Base Expr Machine MachineSpec SchedSpec SchedProofs.
+From HclV Require Import Base Expr Machine MachineSpec SchedSpec SchedProofs Build BuildSpec Generated BuildProofs.
 Open Scope string_scope.
 Open Scope N_scope.
 
@@ -50,6 +50,30 @@ Theorem C01_eval_reads_only_refs :
     (forall n, In n (refs e) -> rho n = rho' n) -> eval f rho e = eval f rho' e.
 Proof. exact eval_ext_ok. Qed.
 Print Assumptions C01_eval_reads_only_refs.
+
+(* the scheduler: the action list Program::new produces (model: Build.build_program with the
+   built-in table of the compiled implementation) is a valid schedule - for every hash iteration
+   order of the dependency sorter (GraphProofs quantifies over all presentations) - and the
+   state-changing actions are the output-less components in table order (E before M) *)
+Theorem C01_scheduler_produces_valid_schedules :
+  forall f is_lower is_upper stmts p,
+    build_program f gen_fixed is_lower is_upper stmts = Ok p ->
+    valid_schedule (known0 p) (p_actions p) = true.
+Proof.
+  intros f il iu stmts p H. exact (build_valid_schedule_gen f il iu gen_fixed_ok stmts p H).
+Qed.
+Print Assumptions C01_scheduler_produces_valid_schedules.
+
+Theorem C01_state_changes_last_in_table_order :
+  forall f is_lower is_upper stmts p,
+    build_program f gen_fixed is_lower is_upper stmts = Ok p ->
+    subseq (effect_part (p_actions p))
+           (map ff_action (filter (fun ff => match ff_out ff with None => true | Some _ => false end) gen_fixed)).
+Proof.
+  intros f il iu stmts p H.
+  exact (build_effects_in_table_order_ok f gen_fixed il iu gen_fixed_ok stmts p H).
+Qed.
+Print Assumptions C01_state_changes_last_in_table_order.
 
 (* non-vacuity: a diamond through the register file and the data memory, in reverse order *)
 Definition ex_acts : list action :=
